@@ -92,8 +92,13 @@ let () =
              if paths <> None then st.bypath <- 1;
              let verdict = ref "ok" in
              let fail s = if !verdict = "ok" then verdict := s in
+             (* the theorems (C03_model_meets_spec, C03_windowed_mapped) and the property speak of a window that is not
+                empty: with --from after --to (or no overlap with the journal's period) there is no column to judge *)
+             let window_empty =
+               (let c = K.clip { K.p_start = cfg.bc.K.bc_from; K.p_end = cfg.bc.K.bc_to } (K.journal_period dl) in
+                K.Z.ltb c.K.p_end c.K.p_start) in
              List.iter (fun b ->
-               if !verdict = "ok" then begin
+               if !verdict = "ok" && not window_empty then begin
                  match K.mtm_row_mapped cfg.bc dl b with
                  | None -> fail "FAIL:a report was printed but the window of the specification does not exist"
                  | Some (srcs, exps) ->
